@@ -155,6 +155,7 @@ func newWorld(rebalancer bool, enc encoding) *world {
 }
 
 type result struct {
+	panic  string
 	served bool
 	code   int
 	seen   string // identity of the server the handler saw
@@ -169,8 +170,17 @@ func (w *world) do(c *http.Cookie) result {
 	}
 	rec := httptest.NewRecorder()
 	before := w.calls
-	w.f.ServeHTTP(rec, req)
+	var panicked any
+	func() {
+		defer func() { panicked = recover() }()
+		w.f.ServeHTTP(rec, req)
+	}()
 	r := result{served: w.calls > before, code: rec.Code}
+	if panicked != nil {
+		// a panic inside ServeHTTP makes net/http drop the connection: the request is rejected
+		r.served, r.code, r.panic = false, 0, fmt.Sprint(panicked)
+		return r
+	}
 	if r.served {
 		r.seen = ident(w.seen)
 	}
@@ -490,7 +500,7 @@ func mutations(c ctx) {
 		c.rep.Count("mutated_cookies")
 		extra := map[string]any{"cookie": m, "original": v}
 		if !r.served || r.code != 200 {
-			c.violate("mutated-cookie-rejected", fmt.Sprintf("request with mutated cookie %.60q was not served (status %d)", m, r.code), extra)
+			c.violate("mutated-cookie-rejected", fmt.Sprintf("request with a mutated cookie (%d characters) was not served (status %d, panic %q)", len(m), r.code, r.panic), map[string]any{"mutation_of": "cookie", "length": len(m)})
 			return
 		}
 		if !w.member(r.seen) {
